@@ -23,8 +23,13 @@ package main
 // ledger, deep compare, CheckStorageHealth with detached containers counted as roots.
 //
 // Trace (engine "nested", coq/theories/NestedTrace.v): see the encoding at the top of that file.
+// With -mode selfset (or selfset+fulltrace) traced histories also write a child container back into
+// the slot that holds it (op code 13; engine "nested2", coq/theories/NestedSelfSetTrace.v over
+// NestedSelfSet.v); without it such self-sets happen only in histories without a trace, and the
+// trace of the default mode is unchanged.
 
 import (
+	"errors"
 	"fmt"
 	"hash/fnv"
 	"sort"
@@ -191,6 +196,7 @@ type nH struct {
 	rep        *Report
 	tr         *Trace
 	c11        bool
+	selfset    bool // -mode selfset: self-sets also in traced histories (op code 13, engine nested2)
 	roots      []*nNode
 	nextID     uint64
 	failed     bool
@@ -224,13 +230,26 @@ func (H *nH) fail(what, detail string) {
 
 type nAbort struct{}
 
+func nHasParentUpdater(n *nNode) bool {
+	if n.isMap {
+		return n.m != nil && atree.VerifMapHasParentUpdater(n.m)
+	}
+	return n.arr != nil && atree.VerifArrayHasParentUpdater(n.arr)
+}
+
 func (H *nH) check(err error, what string) {
 	if err != nil {
 		// known finding F6: a detached container that has not been mutated since it left its parent still
 		// carries its parent callback; the callback holds the parent WRAPPER of that time; when the client has
 		// since re-obtained the parent (a new wrapper, the old one abandoned) or disposed of it, the first
 		// mutation through the detached handle runs the callback on the outdated wrapper and fails inside it
-		if c := H.cur; c != nil && c.parent == nil && c.cbParent != nil && (c.cbParent.dead || c.cbParent.wgen != c.cbGen) {
+		// (also when the mutation goes through a container nested in the detached one: the notification chain
+		// reaches the detached outermost container and runs ITS outdated callback).  Recognised only when the
+		// outermost container still carries a callback registered against a wrapper of its former parent that
+		// has been replaced or disposed of since, and the error is a missing slab met inside that callback.
+		var snf *atree.SlabNotFoundError
+		if c := H.cur; c != nil && errors.As(err, &snf) && nHasParentUpdater(c.outer()) && c.outer().cbParent != nil &&
+			(c.outer().cbParent.dead || c.outer().cbParent.wgen != c.outer().cbGen) {
 			H.fail("C11: F6 the first mutation through the handle of a detached container fails inside its outdated parent callback (the client has re-obtained or disposed of the former parent since)", what+": "+err.Error())
 			panic(nAbort{})
 		}
@@ -518,6 +537,11 @@ func (H *nH) fingerprintOthers(except *nNode) map[*nNode]string {
 
 // emit writes one trace step: [code, nobs, obs..., args...] / [0, dumps...]
 func (H *nH) emit(code int64, args []int64, obs ...*nNode) {
+	H.emitRet(code, args, nil, obs...)
+}
+
+// emitRet: as emit, with ret appended to the answer line (the element handed back, op code 13)
+func (H *nH) emitRet(code int64, args []int64, ret []int64, obs ...*nNode) {
 	if H.tr == nil || H.failed {
 		return
 	}
@@ -541,6 +565,7 @@ func (H *nH) emit(code int64, args []int64, obs ...*nNode) {
 	for _, n := range os {
 		ans = append(ans, H.dumpNode(n, deltas)...)
 	}
+	ans = append(ans, ret...)
 	H.tr.Step(op, ans)
 }
 
@@ -823,8 +848,8 @@ func (H *nH) before(n *nNode) nPre {
 func (H *nH) after(p nPre, name string) {
 	n := p.target
 	H.rep.Op(name)
-	if n.parent == nil {
-		n.cbParent = nil // the first mutation of an outermost container drops an outdated parent callback
+	if o := n.outer(); o.cbParent != nil && !o.dead && !nHasParentUpdater(o) {
+		o.cbParent = nil // the first mutation that reaches an outermost container drops its outdated parent callback
 	}
 	if n.dead {
 		return
@@ -963,7 +988,26 @@ func (H *nH) selfSet(n *nNode) {
 	H.check(err, "C10: writing a child container back into its own slot failed")
 	if st == nil {
 		H.fail("C10: writing a child container back into its own slot returned no previous element", fmt.Sprint(e.child.vid))
+		panic(nAbort{})
 	}
+	// the element handed back is the child itself: its inlined slab if it is (still) inlined, else the
+	// reference to its own stored slab; same wrappers
+	ek, x, w, _, _ := H.decodeStorable(st)
+	_, asSlab := unwrapStorableAll(st).(atree.Slab)
+	if ek != 1 || x != e.child.vid || w != int64(e.w) || asSlab != e.child.inlined() {
+		H.fail("C10: writing a child container back into its own slot did not hand back that child as it is stored",
+			fmt.Sprintf("vid %d w %d inlined %v: got kind %d id %d w %d as-slab %v (%T)", e.child.vid, e.w, e.child.inlined(), ek, x, w, asSlab, unwrapStorableAll(st)))
+	}
+	e.child.cbParent, e.child.cbGen = n, n.wgen // setCallbackWithChild registers the callback again
+	loc := int64(i)
+	if n.isMap {
+		loc = int64(e.kid)
+	}
+	inl := int64(0)
+	if asSlab {
+		inl = 1
+	}
+	H.emitRet(13, []int64{int64(n.vid), loc}, []int64{ek, int64(x), w, inl}, n, e.child)
 	H.after(p, "selfset")
 }
 
@@ -1483,9 +1527,11 @@ func (H *nH) doStep() {
 		}
 	}
 	cnt := len(n.elems)
-	// only without a model trace (the forest model has no such operation): write a child back into the slot
-	// it already occupies, wrapped as it is stored; the library keeps it attached, nothing changes
-	if H.tr == nil && r.Chance(4) {
+	// write a child back into the slot it already occupies, wrapped as it is stored; the library keeps it
+	// attached, nothing changes.  The engine `nested` (Nested.v) has no such operation: in traced histories
+	// only with -mode selfset (op code 13 of the engine `nested2`, NestedSelfSet.v); the random stream of
+	// traced histories without that mode is unchanged (no draw)
+	if (H.tr == nil || H.selfset) && r.Chance(4) {
 		if p := H.pickNode(func(x *nNode) bool { return x.hasChild() }); p != nil {
 			H.selfSet(p)
 			return
@@ -1574,10 +1620,12 @@ func cmdNested(a Args) {
 	rep.Rule = "random forests of nested arrays/maps (depth <= 4, SomeValue wrappers, slab sizes {256,300,512,1024}) mutated through live child handles (creation wrapper, Get after commit+reopen, mutable iteration), children driven across the inline limit in both directions, parents restructured, children detached/mutated/re-attached; non-trivial = at least one inline->standalone and one standalone->inline transition through a child handle" +
 		map[bool]string{true: " and one mutation of a detached child", false: ""}[prop == "C11"]
 	// trace: every history by default; with more than 400 histories only the first 400 (a trace line
-	// set is ~150 KB per history) unless -mode fulltrace; -mode notrace writes none
+	// set is ~150 KB per history) unless -mode fulltrace; -mode notrace writes none;
+	// -mode selfset / selfset+fulltrace: the same with self-sets in traced histories (engine nested2)
 	var trAll *Trace
 	traceMax := 400
-	if a.Mode == "fulltrace" {
+	selfset := a.Mode == "selfset" || a.Mode == "selfset+fulltrace"
+	if a.Mode == "fulltrace" || a.Mode == "selfset+fulltrace" {
 		traceMax = a.N
 	}
 	if a.Mode != "notrace" {
@@ -1607,7 +1655,7 @@ func cmdNested(a Args) {
 		T := sizes[hr.Intn(len(sizes))]
 		set := atree.VerifSetThreshold(T)
 		H := &nH{h: h, tag: tag, T: T, arrLim: set[3], mapLim: set[4], wp: wp, c: consts, base: NewLogBase(),
-			addr: mkAddr(1 + uint64(hr.Intn(3))), rng: hr, rep: rep, tr: tr, c11: prop == "C11" || hr.Chance(25)}
+			addr: mkAddr(1 + uint64(hr.Intn(3))), rng: hr, rep: rep, tr: tr, c11: prop == "C11" || hr.Chance(25), selfset: selfset}
 		H.st = newStorage(H.base)
 		if tr != nil {
 			tr.Hist(tag, uint64(T), uint64(H.arrLim), uint64(H.mapLim), uint64(wp[1]), uint64(wp[2]),
